@@ -7,13 +7,23 @@ package race
 
 import (
 	"context"
+	"crypto/ecdsa"
+	"crypto/elliptic"
+	crand "crypto/rand"
+	"crypto/tls"
+	"crypto/x509"
+	"crypto/x509/pkix"
+	"encoding/json"
+	"encoding/pem"
 	"fmt"
+	"math/big"
 	"math/rand"
 	"net/rpc"
 	"os"
 	"os/exec"
 	"os/user"
 	"strconv"
+	"strings"
 	"sync"
 	"syscall"
 	"testing"
@@ -243,6 +253,26 @@ func vplugin(t *testing.T, proto string) *exec.Cmd {
 	return cmd
 }
 
+// tlsPair makes a self-signed certificate for a plugin that serves over TLS (TLSProvider) and the host-side tls.Config that
+// goes with it: certificates, RootCAs and ServerName, no ClientCAs (the usual shape of a client-side configuration).
+func tlsPair(t *testing.T) (certPEM, keyPEM string, host *tls.Config) {
+	key, _ := ecdsa.GenerateKey(elliptic.P256(), crand.Reader)
+	tmpl := &x509.Certificate{SerialNumber: big.NewInt(7), Subject: pkix.Name{CommonName: "localhost"}, DNSNames: []string{"localhost"},
+		NotBefore: time.Now().Add(-time.Hour), NotAfter: time.Now().Add(24 * time.Hour), IsCA: true, BasicConstraintsValid: true,
+		KeyUsage: x509.KeyUsageDigitalSignature | x509.KeyUsageCertSign, ExtKeyUsage: []x509.ExtKeyUsage{x509.ExtKeyUsageServerAuth, x509.ExtKeyUsageClientAuth}}
+	der, err := x509.CreateCertificate(crand.Reader, tmpl, tmpl, &key.PublicKey, key)
+	if err != nil {
+		t.Fatal(err)
+	}
+	kb, _ := x509.MarshalECPrivateKey(key)
+	cp := pem.EncodeToMemory(&pem.Block{Type: "CERTIFICATE", Bytes: der})
+	kp := pem.EncodeToMemory(&pem.Block{Type: "EC PRIVATE KEY", Bytes: kb})
+	c, _ := tls.X509KeyPair(cp, kp)
+	pool := x509.NewCertPool()
+	pool.AppendCertsFromPEM(cp)
+	return string(cp), string(kp), &tls.Config{Certificates: []tls.Certificate{c}, RootCAs: pool, ServerName: "localhost"}
+}
+
 // usc returns a UnixSocketConfig naming the process's primary group (nil when it has no resolvable name).
 func usc(on bool) *plugin.UnixSocketConfig {
 	if !on {
@@ -258,16 +288,28 @@ func usc(on bool) *plugin.UnixSocketConfig {
 func TestRace_Client(t *testing.T) {
 	r := rand.New(rand.NewSource(seed()))
 	var rmu sync.Mutex
-	for _, proto := range []string{"netrpc", "grpc"} {
+	for _, proto := range []string{"netrpc", "grpc", "grpc-tls"} {
 		for iter := 0; iter < 6; iter++ {
 			ps := plugin.PluginSet{"kv": &kv.Plugin{}}
-			if proto == "grpc" {
+			if proto != "netrpc" {
 				ps = plugin.PluginSet{"kv": &kv.GPlugin{}}
 			}
+			pcmd := vplugin(t, strings.TrimSuffix(proto, "-tls"))
+			var hostTLS *tls.Config
+			if proto == "grpc-tls" { // static TLS: the plugin has a TLSProvider, the host a configuration without ClientCAs
+				if iter >= 3 {
+					continue
+				}
+				cp, kp, h := tlsPair(t)
+				hostTLS = h
+				conf, _ := json.Marshal(map[string]any{"cookie_key": "RC", "cookie_value": "rv", "legacy": 1, "legacy_proto": "grpc", "grpc_server": true, "tls": "provider", "cert_pem": cp, "key_pem": kp})
+				pcmd.Env = []string{"VP_CONF=" + string(conf)}
+			}
 			cl := plugin.NewClient(&plugin.ClientConfig{
+				TLSConfig:        hostTLS,
 				HandshakeConfig:  plugin.HandshakeConfig{MagicCookieKey: "RC", MagicCookieValue: "rv", ProtocolVersion: 1},
 				Plugins:          ps,
-				Cmd:              vplugin(t, proto),
+				Cmd:              pcmd,
 				AllowedProtocols: []plugin.Protocol{plugin.ProtocolNetRPC, plugin.ProtocolGRPC},
 				Logger:           hclog.NewNullLogger(),
 				Managed:          iter%3 == 2,
